@@ -3,7 +3,8 @@
 
    The operations the version graph composes (reading .tiny/.tinydiff text, contracting and
    extending inner class names, applying a diff — the subjects of C03, C04, C11) are parameters
-   [o : ops C M D] of every statement, and their laws are explicit premises where needed.
+   [o : ops C M D] of the statements of sections 1-5, and their laws are explicit premises where
+   needed; section 6 instantiates them with the models of C03, C04, C11 and discharges the premises.
    A directory [d] is the list of its (file name, content) pairs in listing order. *)
 From FB Require Import C05.Model C05.Theory1 C05.Theory2 C05.Theory3 C05.Theory4 C05.Theory5 C05.Theory6 C05.Theory7 C05.Example.
 From Coq Require Import Permutation.
@@ -172,6 +173,158 @@ Theorem C05_unreachable_err : forall C M D (o : ops C M D) (d : list (file C)) g
   candidates_by_name o g k = [Err].
 Proof. exact @unreachable_err_named. Qed.
 Print Assumptions C05_unreachable_err.
+
+(* ---- 6. the history theorem with the composed operations INSTANTIATED ----
+   [FB.C05.Instance.vg_ops] instantiates the parameters with the models of the other properties:
+     parse_tiny := C03 read (2 namespaces)      contract := C11 contract _ "named"
+     parse_diff := C04 read (.tinydiff text)    apply    := C04 apply_to _ _ "named"
+     extend     := C11 extend _ "named"
+   exactly the calls of VersionGraph::resolve / ::apply_diffs.  The theorems below compose the pinned
+   theorems C03_read_write, C04_diff_apply_partial, C04_diff_textual, C04_read_print, C04_apply_norm,
+   C04_diff_ok_iff, C11_contract_extend, C11_extend_preserves_wf along every path; the bridging lemmas
+   (coq/C05/{Compat,Bridge}.v) are pinned first.  Equivalence is C04's [mequiv]: same namespaces, same
+   top-level comment, and at every level the same keys with equal infos/comments — equality up to the
+   order of every map. *)
+From FB Require C05.Sim C05.Compat C05.Bridge C05.Instance C05.InstanceDir C05.InstanceExample.
+From FB Require Quill.Mappings C03.Model C04.Model C04.Hyps C04.Theory2 C11.Model.
+
+(* C04's apply respects C04's equivalence, for every well-formed diff (distinct keys per map) *)
+Theorem C05_apply_respects_mequiv : forall (d : FB.C04.Model.mdiffs) (t t' : FB.Quill.Mappings.mappings) nsname r,
+  FB.C04.Hyps.wf_diff d = true -> FB.C04.Theory2.mequiv t' t -> FB.C04.Model.apply_to d t nsname = Ok r ->
+  exists r', FB.C04.Model.apply_to d t' nsname = Ok r' /\ FB.C04.Theory2.mequiv r' r.
+Proof. exact FB.C05.Compat.apply_to_compat. Qed.
+Print Assumptions C05_apply_respects_mequiv.
+
+Theorem C05_mequiv_trans : forall a b c, FB.C04.Theory2.mequiv a b -> FB.C04.Theory2.mequiv b c -> FB.C04.Theory2.mequiv a c.
+Proof. exact FB.C05.Compat.mequiv_trans. Qed.
+Print Assumptions C05_mequiv_trans.
+
+Theorem C05_mequiv_sym : forall a b, FB.C04.Theory2.mequiv a b -> FB.C04.Theory2.mequiv b a.
+Proof. exact FB.C05.Compat.mequiv_sym. Qed.
+Print Assumptions C05_mequiv_sym.
+
+(* C11's extend and contract respect it *)
+Theorem C05_extend_respects_mequiv : forall M' M name e,
+  FB.C04.Theory2.mequiv M' M -> FB.C11.Model.extend M name = Ok e ->
+  exists e', FB.C11.Model.extend M' name = Ok e' /\ FB.C04.Theory2.mequiv e' e.
+Proof. exact FB.C05.Bridge.extend_compat. Qed.
+Print Assumptions C05_extend_respects_mequiv.
+
+Theorem C05_contract_respects_mequiv : forall M' M name r,
+  FB.C04.Theory2.mequiv M' M -> FB.C11.Model.contract M name = Ok r ->
+  exists r', FB.C11.Model.contract M' name = Ok r' /\ FB.C04.Theory2.mequiv r' r.
+Proof. exact FB.C05.Bridge.contract_compat. Qed.
+Print Assumptions C05_contract_respects_mequiv.
+
+(* what C03's reader returns for a written set (its canonical form) is equivalent to the set *)
+Theorem C05_canon_mequiv : forall M, FB.Quill.Mappings.wf M = true -> FB.C04.Theory2.mequiv (FB.Quill.Mappings.canon M) M.
+Proof. exact FB.C05.Bridge.canon_mequiv. Qed.
+Print Assumptions C05_canon_mequiv.
+
+(* history soundness in simulation form (parameters still abstract): per edge file, from ANY
+   representative of the parent the diff leads to a representative of the child *)
+Theorem C05_history_sim : forall C M D (o : ops C M D) (Inv : str -> M -> Prop) (d : list (file C)) g,
+  well_formed d = true -> resolve (load_root o) d = Ok g ->
+  (forall f vr m, In f d -> classify (fst f) = FRoot vr -> load_root o (snd f) = Ok m -> Inv vr m) ->
+  (forall f p v, In f d -> classify (fst f) = FEdge p v -> forall m, Inv p m ->
+     exists dd b, parse_diff o (snd f) = Ok dd /\ apply o dd m = Ok b /\ Inv v b) ->
+  forall k sp i v, get g k = Ok (sp, i) -> nth_error (g_nodes g) i = Some v ->
+  (exists vr f L, In f d /\ classify (fst f) = FRoot vr /\ nwalk d vr L /\ last L vr = v) ->
+  forall r, In r (candidates_by_name o g k) -> exists m, Inv v m /\ r = extend o m.
+Proof. exact @FB.C05.Sim.history_sim. Qed.
+Print Assumptions C05_history_sim.
+
+(* resolve succeeds: well-formed names, no `.tinydiff` name without `#`, exactly one `.tiny` file
+   that loads, and no cycle (every edge increases some rank) *)
+Theorem C05_resolve_succeeds : forall C M (lr : C -> res M) (d : list (file C)) (rank : str -> nat),
+  well_formed d = true -> has_bad d = false -> tiny_count d = 1%nat ->
+  (forall f, In f d -> is_tiny_name (fst f) = true -> exists m, lr (snd f) = Ok m) ->
+  (forall f p v, In f d -> classify (fst f) = FEdge p v -> (rank p < rank v)%nat) ->
+  exists g, resolve lr d = Ok g.
+Proof. exact @FB.C05.Sim.resolve_succeeds. Qed.
+Print Assumptions C05_resolve_succeeds.
+
+(* THE END-TO-END THEOREM (any rooted acyclic history: chains, trees, DAGs — every shortest path is
+   covered, no confluence hypothesis is needed).  [printed_history H d]:
+     every version v mentioned in d has [version_ok (H v)]: wf, two namespaces the second of which is
+       "named", every entry named in it, C04-textual, no empty comment (C04's known class F4);
+     the `.tiny` file of root vr contains C03.write (C11.extend (H vr) "named"), and [root_ok (H vr)]:
+       C11's simple_names and C03's textual on the extended set;
+     the file `p#v.tinydiff` contains C04.print (C04.diff (H p) (H v)), and [edge_ok (H p) (H v)]: same
+       namespaces, same top-level comment, not in C04's known class F3.
+   Then resolve succeeds and every version reachable from the root, looked up under any of its lookup
+   names, is answered — along every shortest path — by C11.extend (H v) "named" up to mequiv (and by
+   an error exactly if that extension fails). *)
+Theorem C05_history_sound_instantiated :
+  forall (H : str -> FB.Quill.Mappings.mappings) (d : list (file str)) (rank : str -> nat),
+  well_formed d = true -> has_bad d = false -> tiny_count d = 1%nat ->
+  (forall f p v, In f d -> classify (fst f) = FEdge p v -> (rank p < rank v)%nat) ->
+  FB.C05.Instance.printed_history H d ->
+  exists g, resolve (load_root FB.C05.Instance.vg_ops) d = Ok g /\
+    forall v, FB.C05.Instance.reachable d v -> forall k, In k (keys v) ->
+    exists sp i, get g k = Ok (sp, i) /\ nth_error (g_nodes g) i = Some v
+      /\ candidates_by_name FB.C05.Instance.vg_ops g k <> []
+      /\ forall r, In r (candidates_by_name FB.C05.Instance.vg_ops g k) ->
+           FB.C05.Instance.res_rel FB.C04.Theory2.mequiv r (FB.C11.Model.extend (H v) ns_named).
+Proof. exact FB.C05.Instance.history_sound_instantiated. Qed.
+Print Assumptions C05_history_sound_instantiated.
+
+(* the definitions used in that statement, pinned by unfolding *)
+Theorem C05_instance_definitions :
+  (forall c, parse_tiny FB.C05.Instance.vg_ops c = FB.C03.Model.read 2 c)
+  /\ (forall m, contract FB.C05.Instance.vg_ops m = FB.C11.Model.contract m ns_named)
+  /\ (forall c, parse_diff FB.C05.Instance.vg_ops c = FB.C04.Text.read c)
+  /\ (forall dd m, apply FB.C05.Instance.vg_ops dd m = FB.C04.Model.apply_to dd m ns_named)
+  /\ (forall m, extend FB.C05.Instance.vg_ops m = FB.C11.Model.extend m ns_named)
+  /\ (forall M, FB.C05.Instance.version_ok M =
+        (FB.Quill.Mappings.wf M && FB.C04.Hyps.two_ns M && str_eqb (nth 1 (FB.Quill.Mappings.ms_ns M) []) ns_named
+         && FB.C04.Hyps.named M && FB.C04.Hyps.textual_mappings M && negb (FB.C04.Hyps.has_empty_comment M))%bool)
+  /\ (forall A B, FB.C05.Instance.edge_ok A B =
+        (list_eqb str_eqb (FB.Quill.Mappings.ms_ns A) (FB.Quill.Mappings.ms_ns B)
+         && opt_eqb str_eqb (FB.Quill.Mappings.ms_doc A) (FB.Quill.Mappings.ms_doc B) && negb (FB.C04.Hyps.f3_class A B))%bool)
+  /\ (forall M, FB.C05.Instance.root_ok M =
+        (FB.C11.Model.simple_names M 1
+         && match FB.C11.Model.extend M ns_named with Ok e => FB.C03.Model.textual e | Err => false end)%bool)
+  /\ (forall H (d : list (file str)), FB.C05.Instance.printed_history H d <->
+        (forall v, In v (dir_versions d) -> FB.C05.Instance.version_ok (H v) = true)
+        /\ (forall f vr, In f d -> classify (fst f) = FRoot vr ->
+              FB.C05.Instance.root_ok (H vr) = true
+              /\ exists e, FB.C11.Model.extend (H vr) ns_named = Ok e /\ FB.C03.Model.write e = Ok (snd f))
+        /\ (forall f p v, In f d -> classify (fst f) = FEdge p v ->
+              FB.C05.Instance.edge_ok (H p) (H v) = true
+              /\ exists dd, FB.C04.Model.diff (H p) (H v) = Ok dd /\ snd f = FB.C04.Text.print dd))
+  /\ (forall C (d : list (file C)) v, FB.C05.Instance.reachable d v <->
+        exists vr f L, In f d /\ classify (fst f) = FRoot vr /\ nwalk d vr L /\ last L vr = v)
+  /\ (forall A (R : A -> A -> Prop) a b, FB.C05.Instance.res_rel R a b <->
+        match a, b with Ok x, Ok y => R x y | Err, Err => True | _, _ => False end).
+Proof.
+  repeat (split; [intros; reflexivity|]). intros; reflexivity.
+Qed.
+Print Assumptions C05_instance_definitions.
+
+(* the same for the directory COMPUTED from a history given as data: versions (root first, parents
+   before children) with their mapping sets, and edges; [dir_of] writes `<root>.tiny` and one
+   `<parent>#<child>.tinydiff` per edge; all hypotheses are the single boolean [hist_ok]
+   (version_ok / root_ok / edge_ok as above, no `#` in a parent's name, parents listed before
+   children, lookup names of different versions distinct). *)
+Theorem C05_history_dir_sound : forall h, FB.C05.InstanceDir.hist_ok h = true ->
+  exists vr d g, hd_error (map fst (FB.C05.InstanceDir.h_versions h)) = Some vr
+    /\ FB.C05.InstanceDir.dir_of h = Ok d /\ resolve (load_root FB.C05.Instance.vg_ops) d = Ok g /\
+    forall L, FB.C05.InstanceDir.ewalk (FB.C05.InstanceDir.h_edges h) vr L -> let v := last L vr in forall k, In k (keys v) ->
+    exists sp i, get g k = Ok (sp, i) /\ nth_error (g_nodes g) i = Some v
+      /\ candidates_by_name FB.C05.Instance.vg_ops g k <> []
+      /\ forall r, In r (candidates_by_name FB.C05.Instance.vg_ops g k) ->
+           FB.C05.Instance.res_rel FB.C04.Theory2.mequiv r (FB.C11.Model.extend (FB.C05.InstanceDir.hget h v) ns_named).
+Proof. exact FB.C05.InstanceDir.history_dir_sound. Qed.
+Print Assumptions C05_history_dir_sound.
+
+(* non-vacuity of the instantiated theorem: a three-version history (root, child, grandchild; nested
+   and doubly nested classes; rename, additions, removals, comment edits) satisfies hist_ok, and the
+   conclusion is checked by evaluating the instantiated model (vm_compute) — the grandchild's answer
+   is equal to extend (H v) only up to order *)
+Theorem C05_instantiated_example : FB.C05.InstanceExample.instantiated_nonvacuous.
+Proof. exact FB.C05.InstanceExample.instantiated_nonvacuous_holds. Qed.
+Print Assumptions C05_instantiated_example.
 
 (* ---- non-vacuity ---- *)
 Theorem C05_examples : nonvacuous.
